@@ -92,6 +92,48 @@ pub struct NodeData {
     pub fetch: bool,
     /// ordering the operator itself establishes (SortExec / SortPreservingMergeExec `expr()`), if any
     pub own_ord: Vec<Ord1>,
+    /// scalar-function invocations re-enacted on the recorded input batches (single-input nodes)
+    pub fns: Vec<FnObs>,
+}
+
+pub struct FnObs {
+    pub name: String,
+    pub declared: String,
+    /// per input batch: rows, type of the result, number of values in the result
+    pub calls: Vec<(usize, String, usize)>,
+    pub errors: usize,
+}
+
+/// Every ScalarFunctionExpr below the expressions a single-input node evaluates, invoked by the engine's own
+/// evaluator on every batch the node's input emitted.
+fn observe_functions(plan: &Arc<dyn ExecutionPlan>, child_batches: &[&RecordBatch]) -> Vec<FnObs> {
+    use datafusion::common::tree_node::{TreeNode, TreeNodeRecursion};
+    use datafusion::physical_expr::ScalarFunctionExpr;
+    let mut found: Vec<Arc<dyn PhysicalExpr>> = vec![];
+    let _ = plan.apply_expressions(&mut |root| {
+        let _ = root.apply(|e| {
+            if e.downcast_ref::<ScalarFunctionExpr>().is_some() && !found.iter().any(|x| x == e) {
+                found.push(Arc::clone(e));
+            }
+            Ok(TreeNodeRecursion::Continue)
+        });
+        Ok(TreeNodeRecursion::Continue)
+    });
+    let mut out = vec![];
+    for e in found {
+        let f = e.downcast_ref::<ScalarFunctionExpr>().unwrap();
+        let mut o = FnObs { name: f.name().to_string(), declared: format!("{}", f.return_type()), calls: vec![], errors: 0 };
+        for b in child_batches {
+            match e.evaluate(b) {
+                Ok(datafusion::logical_expr::ColumnarValue::Array(a)) => o.calls.push((b.num_rows(), format!("{}", a.data_type()), a.len())),
+                // a scalar stands for one value per input row
+                Ok(datafusion::logical_expr::ColumnarValue::Scalar(v)) => o.calls.push((b.num_rows(), format!("{}", v.data_type()), b.num_rows())),
+                Err(_) => o.errors += 1,
+            }
+        }
+        out.push(o);
+    }
+    out
 }
 
 fn exact<T: Clone + std::fmt::Debug + PartialEq + Eq + PartialOrd>(p: &Precision<T>) -> Option<T> {
@@ -209,7 +251,7 @@ pub fn declare(node: &NodeRef) -> Declared {
 }
 
 /// Observed data (after execution) joined with the declared facts.
-pub fn collect_node(node: &NodeRef, d: Declared, logs: &[StreamLog]) -> NodeData {
+pub fn collect_node(node: &NodeRef, d: Declared, logs: &[StreamLog], child_ids: &[usize]) -> NodeData {
     let plan = &node.original;
     let schema = plan.schema();
     let w = schema.fields().len();
@@ -255,6 +297,12 @@ pub fn collect_node(node: &NodeRef, d: Declared, logs: &[StreamLog]) -> NodeData
             }
         }
     }
+    let fns = if child_ids.len() == 1 && !plan.name().contains("Join") {
+        let cb: Vec<&RecordBatch> = logs.iter().filter(|l| l.node == child_ids[0]).flat_map(|l| l.batches.iter()).collect();
+        observe_functions(plan, &cb)
+    } else {
+        vec![]
+    };
     let mut expr_text: Vec<String> = schema.fields().iter().enumerate().map(|(i, f)| format!("{}@{}", f.name(), i)).collect();
     expr_text.extend(reg.extras.iter().map(|e| format!("{e}")));
     NodeData {
@@ -282,6 +330,7 @@ pub fn collect_node(node: &NodeRef, d: Declared, logs: &[StreamLog]) -> NodeData
         uneval,
         fetch: plan.fetch().is_some(),
         own_ord,
+        fns,
     }
 }
 
@@ -513,6 +562,8 @@ pub fn node_json(nd: &NodeData) -> Value {
                     "per": nd.metric_part_rows.iter().map(|(p, n)| json!({"p": p, "n": n})).collect::<Vec<_>>(),
                     "spilled": nd.spilled_rows.map(|x| x as i64).unwrap_or(-1), "spills": nd.spill_count.map(|x| x as i64).unwrap_or(-1)},
         "uneval": nd.uneval, "fetch": nd.fetch,
+        "fns": nd.fns.iter().map(|f| json!({"f": f.name, "t": f.declared, "errs": f.errors,
+            "calls": f.calls.iter().map(|(n, t, l)| json!({"n": n, "t": t, "len": l})).collect::<Vec<_>>()})).collect::<Vec<_>>(),
         "own_ord": ords_json(&nd.own_ord),
         "own_sorted": nd.streams.iter().filter(|s| s.shape_ok()).all(|s| sorted_by(&s.rows(), &nd.own_ord)),
     })
@@ -633,6 +684,19 @@ pub fn direct_c30(nd: &NodeData) -> Vec<Value> {
                     push("nonnull", c + 1);
                 }
             }
+        }
+    }
+    out
+}
+
+pub fn direct_c30_fns(nd: &NodeData) -> Vec<Value> {
+    let mut out = vec![];
+    for (j, f) in nd.fns.iter().enumerate() {
+        if f.calls.iter().any(|(_, t, _)| *t != f.declared) {
+            out.push(bad(nd.id, -1, "fntype", j + 1));
+        }
+        if f.calls.iter().any(|(n, _, l)| n != l) {
+            out.push(bad(nd.id, -1, "fnlen", j + 1));
         }
     }
     out
